@@ -19,6 +19,9 @@ pub enum Task {
     Spawner { t: f64, j: usize, d: f64, j2: usize },
     /// self-rescheduling chain starting at `t0` with period `p`, counting its runs in chain counter `k`
     Chain { t0: f64, p: f64, k: usize },
+    /// a task scheduled from global scope at `t` that schedules `count` one-shots (bits j0..j0+count) for
+    /// now + d in one go (a burst of hand-overs within one sample)
+    Burst { t: f64, d: f64, j0: usize, count: usize },
 }
 
 #[derive(Clone, Debug, Serialize, Deserialize)]
@@ -38,6 +41,7 @@ fn nbits(c: &Case) -> usize {
         .map(|t| match t {
             Task::Global { j, .. } | Task::FromDsp { j, .. } => *j + 1,
             Task::Spawner { j, j2, .. } => (*j).max(*j2) + 1,
+            Task::Burst { j0, count, .. } => *j0 + *count,
             Task::Chain { .. } => 0,
         })
         .max()
@@ -89,6 +93,18 @@ pub fn source(c: &Case) -> String {
                 ));
                 global_stmts.push(format!("let _s{i} = spawner{i}@{}\n", fmt_num(*t, false)));
             }
+            Task::Burst { t, d, j0, count } => {
+                for m in 0..*count {
+                    let j = j0 + m;
+                    s.push_str(&format!("let bchild{i}_{m} = mkadd{}({})\n", j / 50, w(j)));
+                }
+                s.push_str(&format!("fn burst{i}(){{\n"));
+                for m in 0..*count {
+                    s.push_str(&format!("  let _b{m} = bchild{i}_{m}@(now + {})\n", fmt_num(*d, false)));
+                }
+                s.push_str("}\n");
+                global_stmts.push(format!("let _s{i} = burst{i}@{}\n", fmt_num(*t, false)));
+            }
             Task::Chain { t0, p, .. } => {
                 let k = chain_i;
                 chain_i += 1;
@@ -131,6 +147,7 @@ pub fn model(c: &Case) -> (Vec<f64>, u64) {
         Bit(usize),
         Spawn(usize, f64, usize),
         Chain(f64, usize),
+        Burst(f64, usize, usize),
     }
     let na = naccs(c);
     let nc = nchains(c);
@@ -148,6 +165,7 @@ pub fn model(c: &Case) -> (Vec<f64>, u64) {
                 pending.push((*t0 as u64, Eff::Chain(*p, ci)));
                 ci += 1;
             }
+            Task::Burst { t, d, j0, count } => pending.push((*t as u64, Eff::Burst(*d, *j0, *count))),
         }
     }
     let mut out = vec![];
@@ -167,6 +185,11 @@ pub fn model(c: &Case) -> (Vec<f64>, u64) {
                 Eff::Chain(p, k) => {
                     cnt[k] += 1.0;
                     pending.push(((s as f64 + p) as u64, Eff::Chain(p, k)));
+                }
+                Eff::Burst(d, j0, count) => {
+                    for j in j0..j0 + count {
+                        pending.push(((s as f64 + d) as u64, Eff::Bit(j)));
+                    }
                 }
             }
         }
@@ -191,7 +214,7 @@ pub struct Checked {
 
 /// tasks scheduled while a tick is running (from dsp, from a task, a chain)
 fn scheduled_in_tick(c: &Case) -> usize {
-    c.tasks.iter().filter(|t| !matches!(t, Task::Global { .. })).count()
+    c.tasks.iter().map(|t| match t { Task::Global { .. } => 0, Task::Burst { count, .. } => *count, _ => 1 }).sum()
 }
 
 thread_local! {
@@ -250,7 +273,16 @@ pub fn check(c: &Case) -> Checked {
 }
 
 fn minimise(c: &Case, sig: &str) -> Case {
-    let has = |x: &Case| check(x).violations.iter().any(|v| v.0 == sig);
+    // every evaluation runs both back ends: bounded by count and by time
+    let evals = std::cell::Cell::new(0usize);
+    let t0 = std::time::Instant::now();
+    let has = |x: &Case| {
+        evals.set(evals.get() + 1);
+        if evals.get() > 120 || t0.elapsed().as_secs() > 60 {
+            return false;
+        }
+        check(x).violations.iter().any(|v| v.0 == sig)
+    };
     let mut cur = c.clone();
     loop {
         let mut progressed = false;
@@ -308,6 +340,7 @@ fn exec(c: &Case, idx: usize, out: &mut Out) -> bool {
                 Task::FromDsp { .. } => "kind:from-dsp",
                 Task::Spawner { .. } => "kind:from-running-task",
                 Task::Chain { .. } => "kind:self-rescheduling-chain",
+                Task::Burst { .. } => "kind:burst-from-running-task",
             },
             1,
         );
@@ -329,9 +362,13 @@ fn exec(c: &Case, idx: usize, out: &mut Out) -> bool {
 
 fn gen_case(args: &Args, idx: usize, rng: &mut Rng) -> Case {
     let big = args.thorough() && rng.chance(1, 20);
-    let ntasks = if big { 500 + rng.below(1500) } else if rng.chance(1, 4) { 60 + rng.below(140) } else { 2 + rng.below(40) };
+    // one case in twelve hands more than 256 tasks over within one sample (from global scope or from one task)
+    let burst = !big && rng.chance(1, 12);
+    let ntasks = if big { 500 + rng.below(1500) } else if burst && rng.chance(1, 2) { 270 + rng.below(130) } else if rng.chance(1, 4) { 60 + rng.below(140) } else { 2 + rng.below(40) };
     let n = if big { 400 + rng.below(2000) } else { 16 + rng.below(if args.thorough() { 600 } else { 100 }) };
-    let frac = |rng: &mut Rng| *rng.pick(&[0.0, 0.0, 0.5, 0.25, 0.999, 0.001]);
+    let frac = |rng: &mut Rng| *rng.pick(&[0.0, 0.0, 0.5, 0.25, 0.999, 0.001, 0.9999995, 0.999999999]);
+    // a time a few units in the last place below the whole number k (still sample k - 1)
+    let below = |k: usize, rng: &mut Rng| f64::from_bits((k as f64).to_bits() - (1 + rng.below(3)) as u64);
     let mut tasks = vec![];
     let mut j = 0usize;
     let same_time = if rng.chance(1, 3) { Some(1 + rng.below(n.min(60))) } else { None };
@@ -341,6 +378,7 @@ fn gen_case(args: &Args, idx: usize, rng: &mut Rng) -> Case {
     for _ in 0..ntasks {
         let tt = |rng: &mut Rng| match same_time {
             Some(t) if rng.chance(2, 3) => t as f64 + frac(rng),
+            _ if rng.chance(1, 6) => below(2 + rng.below(n + 5), rng),
             _ => (1 + rng.below(n + 5)) as f64 + frac(rng),
         };
         let safe_case = args.q("wasm-closure-allocated-in-tick-scheduled") && idx % 2 == 0;
@@ -358,6 +396,10 @@ fn gen_case(args: &Args, idx: usize, rng: &mut Rng) -> Case {
                 j += 2;
             }
         }
+    }
+    if burst && ntasks < 270 {
+        let count = 258 + rng.below(120);
+        tasks.push(Task::Burst { t: (1 + rng.below(6)) as f64, d: (1 + rng.below(6)) as f64 + frac(rng), j0: j, count });
     }
     let nchain = if args.q("wasm-closure-allocated-in-tick-scheduled") && idx % 2 == 0 { nchain.min(1) } else { nchain };
     for k in 0..nchain {
